@@ -590,6 +590,7 @@ func FunctionMap() map[string]physical.FunctionDetails {
 									return nil, fmt.Errorf("pattern ends with an escape character that doesn't escape anything")
 								}
 
+								verifLikeRegexp(pattern, sb.String())
 								reg, err := regexp.Compile(sb.String())
 								if err != nil {
 									return nil, fmt.Errorf("couldn't compile LIKE pattern regexp expression: '%s' => '%s': %w", values[1].Str, sb.String(), err)
